@@ -135,8 +135,10 @@ class Stream:
                 self.blocks.append(lines); self.meta.append((I, metas))
         for i in range(n):
             r = rng.fork()
-            kind = i % 5
-            if only_longarcs:
+            kind = i % 6
+            if kind == 5 and not only_longarcs and not stores:
+                I = gen_relaxed_improves(r)      # relaxed diagram inexact yet improving / exact by the exact-best-path rule with several terminals
+            elif only_longarcs:
                 I = gen_layered(r, nvars=r.range(4, 6), per_layer=r.range(2, 4), depth_free=True, irrelevance=True, dominance=0)
             elif kind == 4 and longarcs:
                 I = gen_layered(r, nvars=r.range(3, 5), per_layer=r.range(2, 4), depth_free=True, irrelevance=True, dominance=0)
@@ -144,6 +146,8 @@ class Stream:
                 I = gen_layered(r, nvars=r.range(2, 4), per_layer=2, dom_max=2, dominance=0)
             elif kind == 2 and not stores:
                 I = gen_chain(r, nvars=r.range(4, 6), per_layer=r.range(3, 5), dom_max=r.range(1, 3))    # merge result is a real state: recycling
+            elif stores and i % 4 == 3:
+                I = gen_topmerge(r)
             elif stores:
                 I = gen_layered(r, nvars=r.range(5, 7), per_layer=r.range(3, 5), dom_max=r.range(2, 3), dominance=r.choice([0, 0, 1, 2]),
                                 rub=r.choice([3, 3, 2, 0]), dead=r.chance(1, 3))
